@@ -1,7 +1,10 @@
 //! C07 - a terminated connection is reported closed to everyone exactly once.
 //!
 //! Runs many small scenarios, each on a fresh pair of real litep2p nodes (A, B) connected over
-//! loopback TCP through two harness proxies (A dials B through `ab`, B dials A through `ba`).
+//! loopback through one transport (`tcp`, `ws` = WebSocket, `quic`).  For tcp and ws two harness
+//! proxies sit in between (A dials B through `ab`, B dials A through `ba`); QUIC runs without proxy:
+//! "the connection is gone" is then taken from the nodes' own reports (one side reported closed, or
+//! one side was killed) and steps that need the proxy (cut, stall) are not available.
 //! A scenario is a list of driver steps (connect, simultaneous connect, cut / stall the byte
 //! stream, kill the remote, force_close, wait for keep-alive expiry, drop a local protocol, open
 //! substreams, pause a protocol, quiesce, redial probe).  Everything the application loops and the
@@ -26,11 +29,14 @@ struct World {
     log: Log,
     a: Node,
     b: Node,
-    ab: Proxy,
-    ba: Proxy,
+    ab: Option<Proxy>,
+    ba: Option<Proxy>,
+    transport: String,
     rng: StdRng,
     deadline: Duration,
     paused: std::collections::HashSet<(String, String)>,
+    /// nodes that may end a connection by their own decision at any time (short keep-alive timeout)
+    self_closing: std::collections::HashSet<String>,
 }
 
 /// What the driver believes node `n` currently thinks, derived from the log (only used to decide how
@@ -42,7 +48,9 @@ struct View {
     dials_concluded: usize,
 }
 
-fn view(l: &[Value], n: &str, protos: &[String]) -> View {
+/// `anydir`: count every established report of `n` as the conclusion of one of its dials (QUIC reports
+/// connections opened through `dial(peer)` with a listener endpoint)
+fn view(l: &[Value], n: &str, protos: &[String], anydir: bool) -> View {
     let mut v = View { conns: 0, up: protos.iter().map(|q| (q.clone(), false)).collect(), dials_started: 0, dials_concluded: 0 };
     for e in l {
         if e["n"] != n {
@@ -52,7 +60,7 @@ fn view(l: &[Value], n: &str, protos: &[String]) -> View {
         match e["e"].as_str().unwrap_or("") {
             "app_est" => {
                 v.conns += 1;
-                if e["dir"] == "out" {
+                if e["dir"] == "out" || anydir {
                     v.dials_concluded += 1;
                 }
             }
@@ -88,6 +96,10 @@ fn node_cfg(name: &str, v: &Value, seed: u64) -> NodeCfg {
     c
 }
 
+fn protos_of(n: &Node) -> Vec<String> {
+    n.protos.keys().cloned().collect()
+}
+
 impl World {
     fn node(&self, n: &str) -> &Node {
         if n == "A" { &self.a } else { &self.b }
@@ -98,32 +110,61 @@ impl World {
     fn other(n: &str) -> &'static str {
         if n == "A" { "B" } else { "A" }
     }
-    /// proxy used when `n` dials
-    fn px_of(&self, n: &str) -> &Proxy {
-        if n == "A" { &self.ab } else { &self.ba }
+    /// proxy used when `n` dials (tcp / ws)
+    fn px_of(&self, n: &str) -> Option<&Proxy> {
+        if n == "A" { self.ab.as_ref() } else { self.ba.as_ref() }
     }
+    fn proxies(&self) -> Vec<&Proxy> {
+        self.ab.iter().chain(self.ba.iter()).collect()
+    }
+    /// socket address `n` dials to reach the other node
+    fn target_of(&self, n: &str) -> std::net::SocketAddr {
+        match self.px_of(n) {
+            Some(p) => p.listen,
+            None => self.node(Self::other(n)).listen,
+        }
+    }
+    fn addr_of(&self, n: &str) -> multiaddr::Multiaddr {
+        Node::addr_via(&self.transport, self.target_of(n), self.node(Self::other(n)).peer)
+    }
+    /// number of dial attempts of `n` that became visible: connections accepted by the proxy, or (no
+    /// proxy) dial outcomes the node reported
+    fn attempts(&self, n: &str) -> usize {
+        match self.px_of(n) {
+            Some(p) => p.accepted.load(std::sync::atomic::Ordering::SeqCst) as usize,
+            None => self.log.count_from(0, |v| v["n"] == n && (is(v, "app_est") || is(v, "app_dial_failure"))),
+        }
+    }
+    /// every connection between the two nodes is known to be gone
     fn all_dead(&self) -> bool {
-        self.ab.all_dead() && self.ba.all_dead()
+        if self.ab.is_some() {
+            return self.proxies().iter().all(|p| p.all_dead());
+        }
+        // no proxy: a node was killed, or one side reported that it holds no connection any more
+        if !self.a.alive || !self.b.alive {
+            return true;
+        }
+        let (pa, pb) = (protos_of(&self.a), protos_of(&self.b));
+        self.log.with(|l| view(l, "A", &pa, true).conns == 0 || view(l, "B", &pb, true).conns == 0)
     }
 
-    fn settled(l: &[Value], n: &str, protos: &[String]) -> bool {
-        let v = view(l, n, protos);
+    fn settled(l: &[Value], n: &str, protos: &[String], anydir: bool) -> bool {
+        let v = view(l, n, protos, anydir);
         v.conns == 0 && v.up.values().all(|x| !*x) && v.dials_concluded >= v.dials_started
     }
 
     /// every running protocol of `n` that is being polled has recorded `established`
     fn all_up(&self, l: &[Value], n: &str) -> bool {
         let protos: Vec<String> = self.node(n).protos.keys().cloned().collect();
-        let v = view(l, n, &protos);
+        let v = view(l, n, &protos, false);
         v.up.iter().all(|(q, up)| *up || self.paused.contains(&(n.to_string(), q.clone())))
     }
 
     async fn wait_connect(&self, from: &str, mark: usize, cut: bool) -> (bool, bool) {
         let to = Self::other(from);
         let to_alive = self.node(to).alive;
-        let px = self.px_of(from);
         let has = |l: &[Value], e: &str, n: &str| l.iter().skip(mark).any(|v| is(v, e) && v["n"] == n);
-        let pxname = px.name.clone();
+        let pxname = self.px_of(from).map(|p| p.name.clone()).unwrap_or_default();
         let done = |l: &[Value]| {
             let est_from = has(l, "app_est", from);
             let est_to = has(l, "app_est", to);
@@ -166,10 +207,13 @@ impl World {
                 let from = st["from"].as_str().unwrap_or("A");
                 let to = Self::other(from);
                 let cut_at = st["cut_at"].as_u64();
-                let px = self.px_of(from);
-                *px.policy.lock().unwrap() = Policy { cut_at, refuse: false };
+                match self.px_of(from) {
+                    Some(px) => *px.policy.lock().unwrap() = Policy { cut_at, refuse: false },
+                    None if cut_at.is_some() => return Err("needs the proxy".into()),
+                    None => {}
+                }
                 let mark = self.log.len();
-                let addr = Node::addr_via(px.listen, self.node(to).peer);
+                let addr = self.addr_of(from);
                 self.log.push(json!({"e": "dial_begin", "n": from}));
                 let ret = self.node(from).dial_address(addr).await;
                 self.log.push(json!({"e": "dial_ret", "n": from, "ret": ret.clone().err().unwrap_or("ok".into())}));
@@ -191,10 +235,13 @@ impl World {
             }
             "connect2" => {
                 let mark = self.log.len();
-                for p in [&self.ab, &self.ba] {
+                for p in self.proxies() {
                     *p.policy.lock().unwrap() = Policy::default();
                 }
-                let (aa, ba) = (Node::addr_via(self.ab.listen, self.b.peer), Node::addr_via(self.ba.listen, self.a.peer));
+                if self.ab.is_none() {
+                    return Err("needs the proxy".into());
+                }
+                let (aa, ba) = (self.addr_of("A"), self.addr_of("B"));
                 self.log.push(json!({"e": "dial_begin", "n": "A"}));
                 self.log.push(json!({"e": "dial_begin", "n": "B"}));
                 let (ra, rb) = tokio::join!(self.a.dial_address(aa), self.b.dial_address(ba));
@@ -215,7 +262,7 @@ impl World {
                 self.log.wait(Duration::from_millis(1500), |l| ["A", "B"].iter().all(|x| self.all_up(l, x) && l.iter().skip(mark).any(|v| is(v, "app_est") && v["n"] == *x))).await;
                 tokio::time::sleep(Duration::from_millis(200)).await;
                 let cnt = |n: &str, dir: &str| self.log.count_from(mark, |v| is(v, "app_est") && v["n"] == n && v["dir"] == dir);
-                let live = self.ab.live().len() + self.ba.live().len();
+                let live: usize = self.proxies().iter().map(|p| p.live().len()).sum();
                 self.log.push(json!({"e": "conn2_result", "a_out": cnt("A", "out"), "a_in": cnt("A", "in"), "b_out": cnt("B", "out"), "b_in": cnt("B", "in"), "live": live}));
                 if st["expect"].as_bool().unwrap_or(false) {
                     for (x, y) in [("A", "B"), ("B", "A")] {
@@ -229,10 +276,13 @@ impl World {
             }
             "cut" => {
                 let which = st["which"].as_str().unwrap_or("all");
+                if self.ab.is_none() {
+                    return Err("needs the proxy".into());
+                }
                 let pxs: Vec<&Proxy> = match st["px"].as_str().unwrap_or("both") {
-                    "ab" => vec![&self.ab],
-                    "ba" => vec![&self.ba],
-                    _ => vec![&self.ab, &self.ba],
+                    "ab" => self.ab.iter().collect(),
+                    "ba" => self.ba.iter().collect(),
+                    _ => self.proxies(),
                 };
                 let mut live: Vec<_> = pxs.iter().flat_map(|p| p.live().into_iter().map(|s| (p.name.clone(), s))).collect();
                 if which == "one" && live.len() > 1 {
@@ -250,9 +300,13 @@ impl World {
             }
             "stall" | "unstall" => {
                 let m = if op == "stall" { STALL } else { FWD };
+                if self.ab.is_none() {
+                    return Err("needs the proxy".into());
+                }
                 self.log.push(json!({"e": op}));
-                self.ab.set_all(m);
-                self.ba.set_all(m);
+                for p in self.proxies() {
+                    p.set_all(m);
+                }
             }
             "kill" => {
                 self.log.push(json!({"e": "kill", "n": n}));
@@ -272,6 +326,24 @@ impl World {
                 let nn = n.clone();
                 self.log.wait(Duration::from_secs(5), |l| l.iter().any(|v| is(v, "p_exit") && v["n"] == nn.as_str() && v["q"] == q.as_str())).await;
                 tokio::time::sleep(Duration::from_millis(20)).await;
+            }
+            "open_exit" => {
+                // the protocol requests a substream and shuts down at once: the outcome (negotiated /
+                // refused by the remote / timed out) arrives when the protocol is gone
+                let q = st["q"].as_str().unwrap_or("q3").to_string();
+                let peer = self.node(Self::other(&n)).peer;
+                self.log.push(json!({"e": "drop_begin", "n": n, "q": q, "with_open": true}));
+                let (tx, rx) = tokio::sync::oneshot::channel();
+                self.node(&n).cmd(&q, ProtoCmd::OpenExit { peer, resp: tx }).await;
+                let r = tokio::time::timeout(Duration::from_secs(5), rx).await;
+                let ret = match r {
+                    Ok(Ok(Ok(_))) => "ok".to_string(),
+                    Ok(Ok(Err(e))) => e,
+                    _ => "no answer".to_string(),
+                };
+                self.log.push(json!({"e": "open_exit", "n": n, "q": q, "ret": ret}));
+                let nn = n.clone();
+                self.log.wait(Duration::from_secs(5), |l| l.iter().any(|v| is(v, "p_exit") && v["n"] == nn.as_str() && v["q"] == q.as_str())).await;
             }
             "pause" | "resume" => {
                 let q = st["q"].as_str().unwrap_or("q2");
@@ -353,33 +425,68 @@ impl World {
                 self.paused.clear();
                 let alive: Vec<(String, Vec<String>)> =
                     ["A", "B"].iter().filter(|x| self.node(x).alive).map(|x| (x.to_string(), self.node(x).protos.keys().cloned().collect())).collect();
-                let al = alive.clone();
-                self.log.wait(self.deadline, move |l| al.iter().all(|(x, qs)| World::settled(l, x, qs))).await;
+                let anydir = self.ab.is_none();
+                // Without the proxy a node's obligation to report is only certain when the connection is known
+                // to be gone at the transport level: the other node was killed, or the other node reported
+                // closed without having ended the connection by its own decision (then it saw the transport
+                // fail).  A node that closes a QUIC connection on its own does not necessarily take the QUIC
+                // connection down (substreams held elsewhere keep it up), so its report proves nothing about
+                // the remote side.
+                let certain: Vec<(String, Vec<String>)> = alive
+                    .iter()
+                    .filter(|(x, _)| {
+                        if !anydir {
+                            return true;
+                        }
+                        let o = Self::other(x);
+                        let po = protos_of(self.node(o));
+                        !self.node(o).alive
+                            || (!self.self_closing.contains(o)
+                                && self.log.with(|l| {
+                                    // `o` holds no connection and did not call force_close between its last
+                                    // established report and the closed report that followed it
+                                    let est = l.iter().rposition(|v| is(v, "app_est") && v["n"] == o);
+                                    let closed = est.and_then(|i| l.iter().skip(i).position(|v| is(v, "app_closed") && v["n"] == o).map(|k| i + k));
+                                    match (est, closed) {
+                                        (Some(i), Some(j)) => view(l, o, &po, true).conns == 0 && !l[i..j].iter().any(|v| is(v, "fc_begin") && v["n"] == o),
+                                        _ => false,
+                                    }
+                                }))
+                    })
+                    .cloned()
+                    .collect();
+                let al = certain.clone();
+                self.log.wait(self.deadline, move |l| al.iter().all(|(x, qs)| World::settled(l, x, qs, anydir))).await;
                 tokio::time::sleep(Duration::from_millis(150)).await;
-                for (x, _) in &alive {
-                    self.log.push(json!({"e": "quiesce", "n": x}));
+                for (x, qs) in &alive {
+                    if certain.iter().any(|(y, _)| y == x) || self.log.with(|l| World::settled(l, x, qs, anydir)) {
+                        self.log.push(json!({"e": "quiesce", "n": x}));
+                    } else {
+                        self.log.push(json!({"e": "quiesce_not_judged", "n": x}));
+                    }
                 }
             }
             "redial" => {
                 let to = Self::other(&n);
-                let px = self.px_of(&n);
-                *px.policy.lock().unwrap() = Policy::default();
-                let before = px.accepted.load(std::sync::atomic::Ordering::SeqCst);
+                if let Some(px) = self.px_of(&n) {
+                    *px.policy.lock().unwrap() = Policy::default();
+                }
+                let before = self.attempts(&n);
                 let mark = self.log.len();
                 // the probe is only meaningful when no earlier dial of this node is still unresolved
                 let protos: Vec<String> = self.node(&n).protos.keys().cloned().collect();
-                let clean = self.log.with(|l| { let v = view(l, &n, &protos); v.dials_concluded >= v.dials_started });
+                let anydir = self.ab.is_none();
+                let clean = self.log.with(|l| { let v = view(l, &n, &protos, anydir); v.dials_concluded >= v.dials_started });
                 // the probing node may only ever have been the listener: give it the address to dial
-                let _ = self.node(&n).app.send(netcommon::node::AppCmd::AddKnown { peer: self.node(to).peer, addr: Node::addr_via(px.listen, self.node(to).peer) }).await;
+                let _ = self.node(&n).app.send(netcommon::node::AppCmd::AddKnown { peer: self.node(to).peer, addr: self.addr_of(&n) }).await;
                 self.log.push(json!({"e": "redial_begin", "n": n}));
                 let ret = self.node(&n).dial(self.node(to).peer).await;
-                let acc = px.accepted.clone();
                 let attempted = if ret.is_ok() {
                     let t = std::time::Instant::now();
-                    while acc.load(std::sync::atomic::Ordering::SeqCst) == before && t.elapsed() < self.deadline {
+                    while self.attempts(&n) == before && t.elapsed() < self.deadline {
                         tokio::time::sleep(Duration::from_millis(5)).await;
                     }
-                    acc.load(std::sync::atomic::Ordering::SeqCst) > before
+                    self.attempts(&n) > before
                 } else {
                     false
                 };
@@ -403,11 +510,23 @@ async fn run_scenario(sc: &Value) -> (Vec<Value>, f64, Option<String>) {
     let seed = sc["seed"].as_u64().unwrap_or(1);
     let log = Log::new();
     let probe = LoadProbe::start();
-    let a = Node::start(&node_cfg("A", &sc["A"], seed), log.clone());
-    let b = Node::start(&node_cfg("B", &sc["B"], seed), log.clone());
-    let ab = Proxy::start("ab", b.listen, log.clone()).await;
-    let ba = Proxy::start("ba", a.listen, log.clone()).await;
-    let mut w = World { log: log.clone(), a, b, ab, ba, rng: StdRng::seed_from_u64(seed), deadline: ms(sc, "deadline_ms", 10_000), paused: Default::default() };
+    let transport = sc["transport"].as_str().unwrap_or("tcp").to_string();
+    let (mut ca, mut cb) = (node_cfg("A", &sc["A"], seed), node_cfg("B", &sc["B"], seed));
+    ca.transport = transport.clone();
+    cb.transport = transport.clone();
+    let a = Node::start(&ca, log.clone());
+    let b = Node::start(&cb, log.clone());
+    let (ab, ba) = if transport == "quic" {
+        (None, None)
+    } else {
+        (Some(Proxy::start("ab", b.listen, log.clone()).await), Some(Proxy::start("ba", a.listen, log.clone()).await))
+    };
+    let mut w = World { log: log.clone(), a, b, ab, ba, transport, rng: StdRng::seed_from_u64(seed), deadline: ms(sc, "deadline_ms", 10_000), paused: Default::default(), self_closing: Default::default() };
+    for x in ["A", "B"] {
+        if sc[x]["ka_ms"].as_u64().unwrap_or(120_000) < 60_000 {
+            w.self_closing.insert(x.to_string());
+        }
+    }
     let mut why = None;
     for st in sc["steps"].as_array().unwrap() {
         log.push(json!({"e": "step", "op": st["op"], "arg": st}));
@@ -465,6 +584,7 @@ fn main() {
     let (mut judged, mut inconclusive, mut overloaded, mut reruns, mut events) = (0, 0, 0, 0, 0);
     let mut reasons: std::collections::BTreeMap<String, usize> = Default::default();
     let mut kinds: std::collections::BTreeMap<String, usize> = Default::default();
+    let mut by_transport: std::collections::BTreeMap<String, usize> = Default::default();
     for (sc, mut ls, over, why, discarded, over_bad) in results {
         reruns += discarded;
         if over_bad {
@@ -477,6 +597,7 @@ fn main() {
             continue;
         }
         judged += 1;
+        *by_transport.entry(sc["transport"].as_str().unwrap_or("tcp").to_string()).or_default() += 1;
         // harness self-test faults (never set in a real check): misreport one event class
         match fault.as_str() {
             "drop_closed" => {
@@ -493,7 +614,7 @@ fn main() {
             _ => {}
         }
         let protos = |v: &Value| if v["q3"].as_bool().unwrap_or(false) { json!(["q1", "q2", "q3"]) } else { json!(["q1", "q2"]) };
-        lines.push(json!({"e": "reset", "sc": sc["name"], "seed": sc["seed"], "overshoot_ms": over.round() as u64, "protos": {"A": protos(&sc["A"]), "B": protos(&sc["B"])}}).to_string());
+        lines.push(json!({"e": "reset", "sc": sc["name"], "transport": sc["transport"].as_str().unwrap_or("tcp"), "seed": sc["seed"], "overshoot_ms": over.round() as u64, "protos": {"A": protos(&sc["A"]), "B": protos(&sc["B"])}}).to_string());
         for v in ls {
             *kinds.entry(v["e"].as_str().unwrap_or("?").to_string()).or_default() += 1;
             events += 1;
@@ -508,6 +629,6 @@ fn main() {
     println!(
         "SUMMARY {}",
         json!({"scenarios_judged": judged, "inconclusive": inconclusive, "inconclusive_reasons": reasons, "discarded_overloaded": overloaded,
-               "reruns_for_load": reruns, "events": events, "event_kinds": kinds, "panics": panics.len(), "panic_samples": panics.iter().take(3).collect::<Vec<_>>()})
+               "reruns_for_load": reruns, "judged_by_transport": by_transport, "events": events, "event_kinds": kinds, "panics": panics.len(), "panic_samples": panics.iter().take(3).collect::<Vec<_>>()})
     );
 }
